@@ -1,14 +1,16 @@
 ----------------------------------------- MODULE MC_EmitBin -----------------------------------------
 (* Runs of the slicec binary for C14: template program x format x --disable-color x -A list x a      *)
 (* generator that cannot be started (its error is recorded after compilation and must be written and  *)
-(* counted like every other diagnostic).  driver: the slicec binary, or the library's own way of     *)
+(* counted like every other diagnostic); or a generator that works and reports a diagnostic of its   *)
+(* own in its reply ("okwarn": whatever the compiler does with it, the diagnostic stream stays what   *)
+(* the emitter writes).  driver: the slicec binary, or the library's own way of     *)
 (* finishing a compilation (CompilationState::emit_diagnostics, what other front ends built on the     *)
 (* library call) run in a child process - same stream, same totals, its result in place of the exit    *)
 (* status.                                                                                             *)
 EXTENDS Naturals, TLC, Json
 VARIABLE run
 Allows == {<<>>, <<"All">>, <<"Deprecated">>, <<"BrokenDocLink", "IncorrectDocComment">>}
-Init == /\ run \in [prog : 1..6, format : {"human", "json"}, disable_color : BOOLEAN, allow : Allows, gen : {"none", "missing"},
+Init == /\ run \in [prog : 1..7, format : {"human", "json"}, disable_color : BOOLEAN, allow : Allows, gen : {"none", "missing", "okwarn"},
                      driver : {"binary", "library"}]
         /\ (run.driver = "library" => run.gen = "none")      \* generators belong to the binary
 Next == UNCHANGED run
